@@ -122,8 +122,9 @@ def gen_case(ctx, idx, stream='case'):
     if c['ts'].startswith('JPEG-LS') and (c['rows'] < 8 or c['cols'] < 8):
         c['rows'], c['cols'] = c['rows'] + 7, c['cols'] + 7       # pyjpegls cannot encode tiny frames
     c['workers'] = 0
-    if c['ts'] not in NATIVE and r.random() < (0.12 if ctx.tier == 'thorough' else 0.04):
-        c['workers'] = r.choice([2, 'executor', 'reversing', 'reversing'] + ([-1] if ctx.tier == 'thorough' else []))
+    if c['ts'] not in NATIVE and r.random() < 0.3:
+        # the thread pool 'executor' is ONE pool shared by all cases of a run (a constructor must leave it usable)
+        c['workers'] = r.choice([2, 'executor', 'executor', 'reversing', 'reversing'] + ([-1] if ctx.tier == 'thorough' else []))
     elif c['ts'] in NATIVE and r.random() < 0.02:
         c['workers'] = 'executor'          # has no effect for native syntaxes (a warning), must not change anything
     c['bad'] = None
